@@ -125,7 +125,7 @@ func newEnvSetCmd(env *envCommand) *cobra.Command {
 				return err
 			}
 
-			newYAML, err := yaml.Marshal(docNode.Content[0])
+			newYAML, err := yaml.Marshal(&docNode)
 			if err != nil {
 				return fmt.Errorf("marshaling definition: %w", err)
 			}
